@@ -95,8 +95,10 @@ namespace bloch::compiler {
     }
 
     std::unique_ptr<Program> ModuleLoader::parseFile(const std::string& path) const {
+        std::error_code ec;
         std::ifstream in(path);
-        if (!in) {
+        if (!in || !fs::is_regular_file(path, ec)) {
+            // a directory opens but cannot be read: the stream error surfaced as raw text
             throw BlochError(ErrorCategory::Parse, 0, 0, "failed to open '" + path + "'");
         }
         std::string src((std::istreambuf_iterator<char>(in)), std::istreambuf_iterator<char>());
